@@ -261,6 +261,14 @@ fn vec_check(ctx: &mut Ctx) {
         let n = ctx.pick(q, t);
         ctx.random(name, "vec", &|| vec_gen::case(&cfg), &run, n);
     }
+    // the first phase again with a `tracing` subscriber installed (eyeball-im's instrumentation runs)
+    if matches!(prop, Prop::C05 | Prop::C06 | Prop::C07 | Prop::C08 | Prop::C14 | Prop::C17) {
+        if let Some((_, cfg, q, t)) = vec_phases(prop).into_iter().next() {
+            let run_t = move |c: &VecCase| crate::common::with_tracing(|| engine_vec::run(c, prop));
+            let n = ctx.pick(q / 15, t / 15);
+            ctx.random("tracing-subscriber-installed", "vec", &|| vec_gen::case(&cfg), &run_t, n);
+        }
+    }
     // elements of a zero-sized type: lengths, applicability and ends are all there is to observe
     if matches!(prop, Prop::C05 | Prop::C08 | Prop::C09 | Prop::C10 | Prop::C11) {
         let run_z = move |c: &crate::engine_zvec::ZvCase| crate::engine_zvec::run(c, prop);
@@ -446,6 +454,15 @@ fn obs_check(ctx: &mut Ctx) {
         ctx.known_findings("async", &run);
         let n = ctx.pick(150_000, 2_000_000);
         ctx.random("async-guards-held-across-calls", "async", &|| crate::engine_async::case(), &run, n);
+    }
+    if matches!(prop, Prop::C01 | Prop::C02 | Prop::C03) {
+        // the same histories with a `tracing` subscriber installed that enables every level: the
+        // library's instrumentation (cargo feature `tracing`, on in every harness build) then runs
+        let run_t = move |c: &ObsCase| crate::common::with_tracing(|| engine_obs::run(c, prop));
+        if let Some((_, cfg, q, t)) = obs_phases(prop).into_iter().next() {
+            let n = ctx.pick(q / 8, t / 8);
+            ctx.random("tracing-subscriber-installed", "obs", &|| engine_obs::case(&cfg), &run_t, n);
+        }
     }
     if matches!(prop, Prop::C01 | Prop::C02 | Prop::C03) {
         // observables of a zero-sized value type: nothing but notifications to observe
